@@ -114,7 +114,24 @@ enum Unit {
     Group(Vec<Op>),
 }
 
+fn gen_blit(rng: &mut Rng, w: i32, h: i32) -> Op {
+    let (sw, sh) = (rng.int(1, w as i64 + 2) as i32, rng.int(1, h as i64 + 2) as i32);
+    let img = Img { w: sw, h: sh, data: random_image_data(rng, sw, sh) };
+    let r = if rng.chance(0.5) { (0, 0, sw, sh) } else { (rng.int(-1, sw as i64 - 1) as i32, rng.int(-1, sh as i64 - 1) as i32, rng.int(1, sw as i64 + 1) as i32, rng.int(1, sh as i64 + 1) as i32) };
+    let d = (rng.int(-2, w as i64 - 1) as i32, rng.int(-2, h as i64 - 1) as i32);
+    Op::BlitSurface(rng.below(3) as u8, img, r, d, random_mode(rng), *rng.pick(&[1.0f32, 0.5, 0.0, 254. / 255.]))
+}
+
 fn gen_draw(rng: &mut Rng, w: i32, h: i32) -> Op {
+    if rng.chance(0.06) {
+        return gen_blit(rng, w, h);
+    }
+    if rng.chance(0.03) {
+        // wholly off the surface, tens of thousands of pixels out (nothing to draw, nothing to remember)
+        let far = *rng.pick(&[33000.0f32, 40000., -40000., 70000., -100000.]);
+        let (fx, fy) = if rng.chance(0.7) { (far, rng.range(0., h as f64) as f32) } else { (rng.range(0., w as f64) as f32, far) };
+        return Op::Fill(rect_path(fx, fy, rng.range(1., 9.) as f32, rng.range(1., 9.) as f32), SrcSpec::Solid(premul_pixel(rng)), opts(BlendMode::SrcOver, 1., rng.chance(0.7)));
+    }
     let src = random_source(rng, w, h, 6);
     let o = DrawOptions { blend_mode: random_mode(rng), alpha: random_alpha(rng), antialias: if rng.chance(0.7) { AntialiasMode::Gray } else { AntialiasMode::None } };
     match rng.below(12) {
@@ -222,7 +239,10 @@ fn gen_history(rng: &mut Rng, w: i32, h: i32, len: usize) -> Vec<Unit> {
                 let t = match rng.below(8) {
                     0 => Transform::scale(0., 0.),
                     1 => Transform::new(1., 2., 2., 4., 0., 0.),
-                    2 => Transform::translation(rng.range(-500., 500.) as f32, rng.range(-500., 500.) as f32),
+                    2 => {
+                        let far = if rng.chance(0.3) { 60000. } else { 500. };
+                        Transform::translation(rng.range(-far, far) as f32, rng.range(-500., 500.) as f32)
+                    }
                     3 => Transform::identity(),
                     _ => random_transform(rng, w as f64, h as f64),
                 };
@@ -248,6 +268,13 @@ fn gen_history(rng: &mut Rng, w: i32, h: i32, len: usize) -> Vec<Unit> {
                 }
                 g.push(Op::PopLayer);
                 units.push(Unit::Group(g));
+            }
+            9 if rng.chance(0.3) => {
+                // the same clear before and after a call that writes pixels by another route
+                let c = premul_pixel(rng);
+                units.push(Unit::One(Op::Clear(c)));
+                units.push(Unit::One(if rng.chance(0.6) { gen_blit(rng, w, h) } else { gen_draw(rng, w, h) }));
+                units.push(Unit::One(Op::Clear(c)));
             }
             7 | 8 if !units.is_empty() => {
                 // the previous call again with one thing changed: whatever an implementation remembers
